@@ -36,7 +36,10 @@ def _entry():
 def _c2(ob, con):
     """the channel has a pulse whose fall time has not elapsed (so wait_for_fall inserts a delay before the step that raises)."""
     from contracts.lib import sch_get
+    from pyvc.core import uf, Ref
     h, sch, chan = _entry()
+    if con is not None and con.qual.startswith("Sequence."):
+        sch = uf("Sequence._schedule", Ref, Ref)(sch)       # `self` is the Sequence: its schedule
     cs = sch_get(h, sch, chan)
     arr, n = cs_arr(h, cs), cs_len(h, cs)
     f = z3.BoolVal(False)
